@@ -1041,6 +1041,11 @@ def check_legacy_rule_source(ctx) -> None:
                         plugins.add(t.id)
     sites = [n for n in walk_local(fn.node) if isinstance(n, ast.Constant) and n.value in ("GENE ASSOCIATION", "GENE_ASSOCIATION") and not isinstance(parent(n), ast.JoinedStr)
              and isinstance(parent(n), (ast.Compare, ast.Subscript, ast.Call))]
+    # the fallback may be factored into a helper of the module: the call of the helper is the site then
+    keys = ("GENE ASSOCIATION", "GENE_ASSOCIATION")
+    helpers = {f.node.name for f in prog.all_funcs() if f.unit is fn.unit and f.parent is None and f is not fn
+               and any(isinstance(n, ast.Constant) and n.value in keys and not isinstance(parent(n), ast.JoinedStr) for n in walk_local(f.node))}
+    sites += [n for n in walk_local(fn.node) if isinstance(n, ast.Call) and isinstance(n.func, ast.Name) and n.func.id in helpers]
     if not sites or not plugins:
         ctx.note("C10.legacy: the reader has no legacy rule fallback (or no fbc plugin object) that is read here")
         return
@@ -1072,7 +1077,7 @@ def check_legacy_rule_source(ctx) -> None:
         if ok:
             ctx.ok("C10.legacy", fn, site, "the rule text in the notes is consulted only for a document / reaction without the fbc plugin")
         else:
-            ctx.bad("C10.legacy", fn, enclosing_stmt(site), f"the note `{site.value}` is read as the gene rule on a path that is also taken when the fbc plugin is present (plugin objects: {sorted(plugins)}): a reaction written with an empty rule and such a note (notes are exported verbatim) is read back with the rule of the note")
+            ctx.bad("C10.legacy", fn, enclosing_stmt(site), f"the note `{getattr(site, 'value', None) if isinstance(site, ast.Constant) else norm(site, 40)}` is read as the gene rule on a path that is also taken when the fbc plugin is present (plugin objects: {sorted(plugins)}): a reaction written with an empty rule and such a note (notes are exported verbatim) is read back with the rule of the note")
 
 
 class _Tag:
@@ -1498,7 +1503,7 @@ def run(ctx) -> None:
     ctx.guard(check_integer_setters, ctx)
     ctx.rule("C10.reread", "T4: the functions that read a document from the file system / the parser are not memoised on the file name", floor=2)
     ctx.guard(check_readers_not_memoised, ctx, "C10.reread", ("cobra.io.sbml",))
-    ctx.rule("C10.legacy", "T2 guard dominance: the legacy rule text of the notes is consulted only in the absence of the fbc plugin", floor=2)
+    ctx.rule("C10.legacy", "T2 guard dominance: the legacy rule text of the notes is consulted only in the absence of the fbc plugin", floor=2, hard=0)
     ctx.guard(check_legacy_rule_source, ctx)
     ctx.guard(check_objective_written, ctx)
     ctx.guard(check_member_lookup, ctx)
